@@ -749,6 +749,9 @@ def text_violations(text, invoke_name, records):
         if mat:
             fam = mat.group(1).lower()
             words = mat.group(2).lower()
+            # a worksharing directive only applies to a DO statement that
+            # follows it immediately
+            pending = None
             if fam == "omp":
                 if re.match(r"end\s+parallel\s+do\b", words) or \
                         re.match(r"end\s+(do|taskloop)\b", words):
